@@ -99,6 +99,29 @@ class TreeMod(roundtrip.RTMod):
                 return c
         return None
 
+    # ---- green snapshots: a green value is ('abs','green', root_id) of a detached, never-mutated copy
+    def copy_subtree(self, h, i, parent=None, mutable=True):
+        e = h[i]
+        nid = new_id(h)
+        if e[1] == "T":
+            h[nid] = (nid, "T", e[2], e[3], parent, mutable)
+            return nid
+        h[nid] = (nid, "N", e[2], (), parent, mutable)
+        kids = tuple(self.copy_subtree(h, c, nid, mutable) for c in e[3])
+        h[nid] = (nid, "N", e[2], kids, parent, mutable)
+        return nid
+
+    def green_elem_to_tree(self, I, st, h, x, parent, mutable):
+        """x: ('abs','green',id) | ('abs','gtok',kind,text) (possibly wrapped in NodeOrToken) -> new id in h"""
+        x = self.unwrap(I, st, x)
+        if x[0] == "abs" and x[1] == "green":
+            return self.copy_subtree(h, x[2], parent, mutable)
+        if x[0] == "abs" and x[1] == "gtok":
+            nid = new_id(h)
+            h[nid] = (nid, "T", x[2], x[3], parent, mutable)
+            return nid
+        return None
+
     # ---- building trees directly (for specs)
     def build(self, st, spec, mutable=True):
         """spec: (kind, [children]) | ('tok', kind, text_sstr) ; returns (state, root id)"""
@@ -238,6 +261,38 @@ class TreeMod(roundtrip.RTMod):
         go(it, [], st, 0)
         return results
 
+    # ---- lazily returned iterators whose closures capture locals of the returning frame are forced at return
+    def captures_frame(self, I, v, depth):
+        if not isinstance(v, tuple) or not v:
+            return False
+        if v[0] == "abs" and v[1] == "lazy":
+            fn = v[4]
+            if isinstance(fn, tuple) and fn and fn[0] == "closure" and fn[2] == depth:
+                import lexer
+                node = I.closures.get(fn[1])
+                if node is not None and lexer.capture_vars(node):
+                    return True
+            return self.captures_frame(I, v[2], depth)
+        if v[0] == "enum":
+            return any(self.captures_frame(I, x, depth) for x in v[2])
+        return False
+
+    def force(self, I, st, v, n):
+        """replace lazy iterators inside v by drained sequences: list of (v', state)"""
+        if v[0] == "abs" and v[1] == "lazy":
+            out = []
+            for items, s in self.drain(I, st, v, n):
+                out.append((("abs", "siter", tuple(items), 0) if items is not None else unk("force"), s))
+            return out
+        if v[0] == "enum" and len(v[2]) == 1:
+            return [(("enum", v[1], (x,)), s) for x, s in self.force(I, st, v[2][0], n)]
+        return [(v, st)]
+
+    def on_return(self, I, f, v, st):
+        if isinstance(v, tuple) and self.captures_frame(I, v, st.depth):
+            return self.force(I, st, v, {})
+        return [(v, st)]
+
     # ---- intrinsics
     def intrinsic(self, I, callee, args, st, n):
         c = callee
@@ -290,13 +345,42 @@ class TreeMod(roundtrip.RTMod):
                 s2.mon.pop(("b", bid), None)
                 s2.mon.pop(("broot", bid), None)
                 return [(OK, ("abs", "green", root), s2)]
+        if c == "rowan::green::token::GreenToken::new":
+            k = self.kname(I, st, args[0]) or "?"
+            return [(OK, ("abs", "gtok", k, roundtrip.normalize(I.deref_val(st, args[1]))), st)]
+        if raw0 is not None and raw0[0] == "abs" and raw0[1] in ("green", "gtok") and c in ("<T as core::convert::Into<U>>::into", "core::convert::Into::into"):
+            return [(OK, ("enum", NOT_NODE if raw0[1] == "green" else NOT_TOK, (raw0,)), st)]
         if raw0 is not None and raw0[0] == "abs" and raw0[1] == "green":
             if c in ("rowan::api::SyntaxNode::<L>::new_root_mut", "rowan::api::SyntaxNode::<L>::new_root"):
                 h = heap_get(st)
-                self.mark_mutable(h, raw0[2], c.endswith("new_root_mut"))
-                return [(OK, ("abs", "nref", raw0[2]), heap_put(st, h))]
-            if c.endswith("as core::clone::Clone>::clone"):
+                # a green tree is immutable and may be shared: every root made from it is an independent copy
+                nid = self.copy_subtree(h, raw0[2], None, c.endswith("new_root_mut"))
+                return [(OK, ("abs", "nref", nid), heap_put(st, h))]
+            if c.endswith("as core::clone::Clone>::clone") or c.endswith("Deref>::deref") or c.endswith("::to_owned") or c.endswith("::into_owned"):
                 return [(OK, raw0, st)]
+            if c == "rowan::green::node::GreenNodeData::splice_children":
+                h = heap_get(st)
+                rng = I.deref_val(st, args[1])
+                new = I.deref_val(st, args[2])
+                d = dict(rng[2]) if rng[0] == "struct" else {}
+                lo, hi = d.get("start"), d.get("end")
+                items = list(new[2]) if new[0] == "abs" and new[1] == "svec" else (list(new[1]) if new[0] == "tuple" else None)
+                if items is None or not (lo and hi and isinstance(lo[1], int) and isinstance(hi[1], int)):
+                    return [(OK, unk("green-splice"), st)]
+                nid = self.copy_subtree(h, raw0[2], None, True)
+                ch = list(h[nid][3])
+                if hi[1] > len(ch) or lo[1] > hi[1]:
+                    return [(PANIC, ("GreenNodeData::splice_children range %d..%d out of bounds (%d children)" % (lo[1], hi[1], len(ch)), sp), st)]
+                newids = []
+                for it in items:
+                    x = self.green_elem_to_tree(I, st, h, it, nid, True)
+                    if x is None:
+                        return [(OK, unk("green-splice-elem"), st)]
+                    newids.append(x)
+                ch[lo[1]:hi[1]] = newids
+                e2 = h[nid]
+                h[nid] = (e2[0], e2[1], e2[2], tuple(ch), None, True)
+                return [(OK, ("abs", "green", nid), heap_put(st, h))]
         # ---------------- nodes
         if isn or ist:
             h = heap_get(st)
@@ -337,6 +421,52 @@ class TreeMod(roundtrip.RTMod):
                     return None
                 r = ft(e[0], m == "first_token")
                 return [(OK, some(("abs", "tref", r)) if r is not None else none(), st)]
+            if isn and m == "green" and "rowan::api::SyntaxNode" in c:
+                nid = self.copy_subtree(h, e[0], None, True)
+                return [(OK, ("abs", "green", nid), heap_put(st, h))]
+            if isn and m == "replace_with":
+                g = I.deref_val(st, args[1])
+                if not (g[0] == "abs" and g[1] == "green"):
+                    return [(OK, unk("replace_with"), st)]
+                if h[g[2]][2] != e[2]:
+                    return [(PANIC, ("replace_with: kind mismatch %s vs %s" % (e[2], h[g[2]][2]), sp), st)]
+                # rowan: returns the green node of the ROOT of self's tree with self replaced
+                cur, repl = e[0], g[2]
+                while h[cur][4] is not None:
+                    p = h[cur][4]
+                    pcopy = self.copy_subtree(h, p, None, True)
+                    idx = h[p][3].index(cur)
+                    ch = list(h[pcopy][3])
+                    rcopy = self.copy_subtree(h, repl, pcopy, True)
+                    ch[idx] = rcopy
+                    pe = h[pcopy]
+                    h[pcopy] = (pe[0], pe[1], pe[2], tuple(ch), None, True)
+                    cur, repl = p, pcopy
+                return [(OK, ("abs", "green", repl), heap_put(st, h))]
+            if m in ("next_sibling_or_token", "prev_sibling_or_token", "next_sibling", "prev_sibling") and "rowan::api" in c:
+                p = e[4]
+                if p is None:
+                    return [(OK, none(), st)]
+                ch = h[p][3]
+                k = ch.index(e[0])
+                seq = ch[k + 1:] if m.startswith("next") else tuple(reversed(ch[:k]))
+                for x in seq:
+                    if m.endswith("or_token") or h[x][1] == "N":
+                        return [(OK, some(self.wrap(h[x]) if m.endswith("or_token") else self.handle(h[x])), st)]
+                return [(OK, none(), st)]
+            if isn and m in ("first_child_or_token", "last_child_or_token"):
+                if not e[3]:
+                    return [(OK, none(), st)]
+                return [(OK, some(self.wrap(h[e[3][0 if m.startswith("first") else -1]])), st)]
+            if isn and m == "siblings":
+                d = I.deref_val(st, args[1])
+                p = e[4]
+                if p is None:
+                    return [(OK, ("abs", "siter", (self.handle(e),), 0), st)]
+                ch = [x for x in h[p][3] if h[x][1] == "N"]
+                k = ch.index(e[0])
+                seq = ch[k:] if (d[0] == "enum" and d[1].endswith("Next")) else list(reversed(ch[:k + 1]))
+                return [(OK, ("abs", "siter", tuple(self.handle(h[x]) for x in seq), 0), st)]
             if isn and m in ("first_child", "last_child"):
                 ns = [x for x in e[3] if h[x][1] == "N"]
                 return [(OK, some(("abs", "nref", ns[0 if m == "first_child" else -1])) if ns else none(), st)]
@@ -439,6 +569,33 @@ class TreeMod(roundtrip.RTMod):
                         sub = rowanmodel.RowanMod.adapter(self, I, s, m, items, args, n)
                         out.extend(sub)
                 return out
+        if raw0 is not None and raw0[0] == "abs" and raw0[1] in ("siter", "liveiter", "lazy", "svec") and "Iterator" in c and m in ("skip", "chain", "rev", "take"):
+            outs = []
+            srcs = [(list(raw0[2][raw0[3]:]), st)] if raw0[1] == "siter" else ([(list(raw0[2]), st)] if raw0[1] == "svec" else self.drain(I, st, raw0, n))
+            for items, s in srcs:
+                if items is None:
+                    outs.append((OK, unk(m), s))
+                    continue
+                if m == "skip" or m == "take":
+                    k = I.deref_val(s, args[1])
+                    if not (k[0] == "int" and isinstance(k[1], int)):
+                        outs.append((OK, unk(m), s))
+                        continue
+                    outs.append((OK, ("abs", "siter", tuple(items[k[1]:] if m == "skip" else items[:k[1]]), 0), s))
+                elif m == "rev":
+                    outs.append((OK, ("abs", "siter", tuple(reversed(items)), 0), s))
+                else:
+                    other = I.deref_val(s, args[1])
+                    if other[0] == "abs" and other[1] == "siter":
+                        outs.append((OK, ("abs", "siter", tuple(items) + tuple(other[2][other[3]:]), 0), s))
+                    elif other[0] == "abs" and other[1] == "svec":
+                        outs.append((OK, ("abs", "siter", tuple(items) + tuple(other[2]), 0), s))
+                    elif other[0] == "abs" and other[1] in ("lazy", "liveiter"):
+                        for more, s2 in self.drain(I, s, other, n):
+                            outs.append((OK, ("abs", "siter", tuple(items) + tuple(more), 0) if more is not None else unk("chain"), s2))
+                    else:
+                        outs.append((OK, unk("chain"), s))
+            return outs
         if raw0 is not None and raw0[0] == "abs" and raw0[1] == "siter" and "Iterator" in c and m in ("filter_map", "filter", "find", "find_map", "any", "all", "position", "skip_while", "take_while", "count", "last", "nth", "enumerate"):
             return rowanmodel.RowanMod.adapter(self, I, st, m, list(raw0[2][raw0[3]:]), args, n)
         return super().intrinsic(I, c, args, st, n)
